@@ -66,13 +66,12 @@ impl Matcher for NewerMatcher {
     fn matches(&self, file_info: &WalkEntry, _: &mut MatcherIO) -> bool {
         match self.matches_impl(file_info) {
             Err(e) => {
-                writeln!(
+                let _ = writeln!(
                     &mut stderr(),
                     "Error getting modification time for {}: {}",
                     file_info.path().to_string_lossy(),
                     e
-                )
-                .unwrap();
+                );
                 false
             }
             Ok(t) => t,
@@ -148,15 +147,14 @@ impl Matcher for NewerOptionMatcher {
     fn matches(&self, file_info: &WalkEntry, _: &mut MatcherIO) -> bool {
         match self.matches_impl(file_info) {
             Err(e) => {
-                writeln!(
+                let _ = writeln!(
                     &mut stderr(),
                     "Error getting {:?} and {:?} time for {}: {}",
                     self.x_option,
                     self.y_option,
                     file_info.path().to_string_lossy(),
                     e
-                )
-                .unwrap();
+                );
                 false
             }
             Ok(t) => t,
@@ -199,14 +197,13 @@ impl Matcher for NewerTimeMatcher {
     fn matches(&self, file_info: &WalkEntry, _: &mut MatcherIO) -> bool {
         match self.matches_impl(file_info) {
             Err(e) => {
-                writeln!(
+                let _ = writeln!(
                     &mut stderr(),
                     "Error getting {:?} time for {}: {}",
                     self.newer_time_type,
                     file_info.path().to_string_lossy(),
                     e
-                )
-                .unwrap();
+                );
                 false
             }
             Ok(t) => t,
@@ -273,14 +270,13 @@ impl Matcher for FileTimeMatcher {
         let start_time = get_time(matcher_io, self.today_start);
         match self.matches_impl(file_info, start_time) {
             Err(e) => {
-                writeln!(
+                let _ = writeln!(
                     &mut stderr(),
                     "Error getting {:?} time for {}: {}",
                     self.file_time_type,
                     file_info.path().to_string_lossy(),
                     e
-                )
-                .unwrap();
+                );
                 false
             }
             Ok(t) => t,
@@ -346,14 +342,13 @@ impl Matcher for FileAgeRangeMatcher {
         let start_time = get_time(matcher_io, self.today_start);
         match self.matches_impl(file_info, start_time) {
             Err(e) => {
-                writeln!(
+                let _ = writeln!(
                     &mut stderr(),
                     "Error getting {:?} time for {}: {}",
                     self.file_time_type,
                     file_info.path().to_string_lossy(),
                     e
-                )
-                .unwrap();
+                );
                 false
             }
             Ok(t) => t,
